@@ -1,5 +1,5 @@
 ---- MODULE MC_q_dev ----
 EXTENDS MCOFWire
-TheCases == Deviations(TopKindsOF)
+TheCases == Deviations(TopKindsOF \ StatsKinds)
 TheAround == AroundOne
 ====
